@@ -324,10 +324,14 @@ func TestVerif_C13_exec(t *testing.T) {
 			}
 			oc := ocr3types.OutcomeContext{SeqNr: 5, PreviousOutcome: raw}
 			tag := fmt.Sprintf("raw%d", k)
+			rawValid := false
 			run(scn, 6, tag, "raw", 1, "ValidateObservation", func() {
-				_ = vC13Plugin(1, false).ValidateObservation(ctx, octx, nil, types.AttributedObservation{Observation: raw, Observer: 0})
+				rawValid = vC13Plugin(1, false).ValidateObservation(ctx, octx, nil, types.AttributedObservation{Observation: raw, Observer: 0}) == nil
 			})
-			run(scn, 6, tag, "raw", 2, "Outcome", func() { _, _ = vC13Plugin(2, false).Outcome(ctx, oc, nil, mkAos(raw)) })
+			run(scn, 6, tag, "raw-prev", 2, "Outcome", func() { _, _ = vC13Plugin(2, false).Outcome(ctx, oc, nil, mkAos(obsB[0])) })
+			if rawValid {
+				run(scn, 6, tag, "raw-obs", 2, "Outcome", func() { _, _ = vC13Plugin(2, false).Outcome(ctx, octx, nil, mkAos(raw)) })
+			}
 			run(scn, 6, tag, "raw", 0, "Observation", func() { _, _ = vC13Plugin(2, false).Observation(ctx, oc, nil) })
 			run(scn, 6, tag, "raw", 3, "Reports", func() { _, _ = vC13Plugin(2, false).Reports(ctx, 5, raw) })
 			ri := ocr3types.ReportWithInfo[[]byte]{Report: raw}
